@@ -17,7 +17,7 @@ from ..facepad import AX, AY, FACE, run as run_face, table_for
 from ..harness import run_apply, run_dispatch
 from ..xmodel import dimsym, make_da, make_grid
 from .c02 import run_pad
-from .c05 import check_link_cells, check_single_links
+from .c05 import check_link_cells, check_shared_source, check_single_links
 
 EXPLANATION = (
     "Abstract evaluation of _pad_face_connections for the 16 vector cells against the orientation-map signs and partner rule; "
@@ -41,6 +41,7 @@ def check(ctx):
     P = ctx.project
     check_link_cells(ctx, P, ("parallel", "tangential"), rule_of=lambda r: RULE_MAP.get(r, r), floor_rule="R05.1")
     check_single_links(ctx, P, ("parallel", "tangential"), rule_of=lambda r: RULE_MAP.get(r, r), floor_rule="R05.1")
+    check_shared_source(ctx, P, ("parallel", "tangential"), rule_of=lambda r: RULE_MAP.get(r, r))
     _threading(ctx, P)
     _simple_grid(ctx, P)
 
